@@ -179,6 +179,17 @@ P = {
   note="Trusted: rustc MIR. The for-all-words equivalence of the composed text is a statement about sequences of keys and is declined.",
   technique="symbolic path summaries: map extraction, frame rule against the option-off rule list, who-reads analysis, field-state paths of back-space",
   ref="§4 C14"),
+ "C15": dict(
+  text="In the fixed list builder: the composed word (word() of the split composition buffer) is pushed first-ranked unconditionally right after the "
+       "clear and before every other push, and is the distance base handed to the search; a [lo,hi] length dataflow with callee summaries bounds "
+       "the list by nine at the constructor on every path; the English tail is last-ranked, guarded by exactly option ∧ text ≠ raw keys, after sort "
+       "and truncation; the first-letter decision table extracted from MIR agrees with dictionary.json in both directions (57 letters / 47 tables); "
+       "the search pattern is reassembled from the compiled format template (^ cleaned word, one Bengali character class, {0,n} with constant n, $), "
+       "and the cleaning closure is evaluated as a set that must cover every regex meta-character and U+200C while keeping Bengali letters; the "
+       "builder post-dominates the key-value processor in the key event; the distance step is ≤ 10. Decides the prefix-completion structure.",
+  note="Trusted: regex crate semantics, edit_distance; rustc MIR. Which words match, consecutive-only dedup versus 'none repeats' and tie order are value-level and declined.",
+  technique="provenance/dominance + length-bound dataflow + two-way data/table agreement + format-template reassembly + finite evaluation of the cleaning predicate",
+  ref="§4 C15"),
 }
 
 NA_REASON = "rule module not built yet in this round (see DESIGN.md §4 for the planned static rules)"
